@@ -4,3 +4,4 @@ import MtailVerif.Props.C12
 #print axioms MtailVerif.C12.export_releases
 #print axioms MtailVerif.ExportLocks.safe_sound
 #print axioms MtailVerif.C12.json_export_releases
+#print axioms MtailVerif.C12.export_skeletons
